@@ -337,3 +337,186 @@ Example C12_example_kwargs :
   = Some ("minkowski"%string, [("p"%string, 2%nat); ("w"%string, 1%nat)], [("name"%string, 0%nat)])
   /\ distance_init "seuclidean"%string [("p"%string, 2%nat)] = None.
 Proof. split; vm_compute; reflexivity. Qed.
+
+(** *** link with C01: the round's batches and acceptance masks are those of the Rejection model
+
+    Proofs/C12_C01_Link.v couples the two models: one consumed batch updates the C01 sampler state
+    ([Reject.rupdate]) and the C12 node ([merge_batch]) with the [sbatch] whose data are the summary
+    rows of ALL draws of the batch and whose mask is [map (accepts thr) batch], [thr] being the
+    threshold in the C01 state.  ABSTRACT: [summ : draw -> list Q], the summary row of a draw (the C01
+    draw carries only its discrepancy under the current distance and a code for its row of outputs).
+    The imports below shadow [case], [ok], [agree], [all2], [extract] of Num.Welford / Num.Distance
+    with those of Sched.Reject from here on. *)
+From Elfi Require Import Sched.Reject Proofs.C01_Reject Proofs.C01_History Proofs.C12_C01_Link.
+
+(** the mask handed to the C12 model selects exactly the draws the C01 step stores; the coupled
+    round is the C01 fold paired with [rejection_round] over the corresponding sbatches *)
+Theorem C12_link_mask_is_C01_acceptance :
+  forall (summ : draw -> list Q) thr batch,
+    select (sb_accept (sbatch_of summ thr batch)) batch = filter (accepts thr) batch
+    /\ length (sb_accept (sbatch_of summ thr batch)) = length (sb_data (sbatch_of summ thr batch)).
+Proof. intros summ thr batch. split; [apply sbatch_mask_is_C01_filter | apply sbatch_mask_length]. Qed.
+Print Assumptions C12_link_mask_is_C01_acceptance.
+
+Theorem C12_link_round_is_both_models :
+  forall (summ : draw -> list Q) s0 a bs,
+    link_round summ s0 a bs = (consume s0 bs, rejection_round a (sbatches_of summ (r_thr s0) bs)).
+Proof. exact link_round_split. Qed.
+Print Assumptions C12_link_round_is_both_models.
+
+(** One round of the coupled model from ANY sampler state and ANY node state: before
+    [update_distance] the node holds count, mean and M2 of ALL summary rows of ALL consumed batches,
+    the count being the simulations the C01 state counted; the round appends their 1/variance. *)
+Theorem C12_round_sees_all_rows_of_C01_batches :
+  forall (summ : draw -> list Q) s0 a w bs,
+    (0 < r_b s0)%nat -> bs <> [] -> batches_wf summ w (r_b s0) bs ->
+    let p := link_consume summ (s0, init_round a) bs in
+    let R := map summ (concat bs) in
+    fst p = consume s0 bs
+    /\ NodeSawAll w (snd p) R ((r_nbatches (fst p) - r_nbatches s0) * r_b s0)
+    /\ exists a2, update_distance (snd p) = Some a2
+                  /\ rejection_round a (sbatches_of summ (r_thr s0) bs) = Some a2
+                  /\ RoundAppends w a a2 R.
+Proof. exact link_round_sees_all_rows. Qed.
+Print Assumptions C12_round_sees_all_rows_of_C01_batches.
+
+(** A finished run of the C01 model ([run_on]: set_objective on an instance in any prior state, then
+    the sequential specification) and, in parallel, the node: the coupled model ends in the C01
+    model's final state; the node has seen exactly [n_sim] = n_batches * batch_size rows, ALL summary
+    rows of ALL consumed batches; the round appends their 1/variance; the returned rows are the best
+    accepted draws under the discrepancies of this run. *)
+Theorem C12_round_sees_all_simulated_rows_of_C01_run :
+  forall (summ : draw -> list Q) prev c s a w,
+    run_wf summ w c -> run_on prev c = Some s -> run_finished c (Reject.extract s) ->
+    let res := Reject.extract s in
+    let consumed := consumed_batches c res in
+    let R := map summ (concat consumed) in
+    let p := link_consume summ (rset_objective prev (c_n c) (c_b c) (c_form c), init_round a) consumed in
+    fst p = s
+    /\ snd p = fold_left merge_batch (round_of_run summ c res) (init_round a)
+    /\ NodeSawAll w (snd p) R (res_n_sim res)
+    /\ res_n_sim res = (res_n_batches res * c_b c)%nat
+    /\ (exists a2, update_distance (snd p) = Some a2
+                   /\ rejection_round a (round_of_run summ c res) = Some a2
+                   /\ RoundAppends w a a2 R)
+    /\ returns_best (c_n c) (run_thr c) (concat consumed) (res_rows res).
+Proof. exact run_round_sees_all_simulated_rows. Qed.
+Print Assumptions C12_round_sees_all_simulated_rows_of_C01_run.
+
+(** the node half of a round does not depend on the sampler state (threshold, n, batch size, buffer) *)
+Theorem C12_round_ignores_C01_threshold :
+  forall (summ : draw -> list Q) s1 s2 a bs,
+    snd (link_round summ s1 a bs) = snd (link_round summ s2 a bs)
+    /\ snd (link_consume summ (s1, init_round a) bs) = snd (link_consume summ (s2, init_round a) bs).
+Proof. exact link_round_node_ignores_threshold. Qed.
+Print Assumptions C12_round_ignores_C01_threshold.
+
+(** same summary rows in the same order, other thresholds / batch sizes / discrepancies / node
+    histories: equal accumulators, equal appended weights *)
+Theorem C12_round_ignores_C01_threshold_and_batching :
+  forall (summ : draw -> list Q) s1 s2 a1 a2 w bs1 bs2,
+    (0 < r_b s1)%nat -> (0 < r_b s2)%nat -> bs1 <> [] -> bs2 <> [] ->
+    batches_wf summ w (r_b s1) bs1 -> batches_wf summ w (r_b s2) bs2 ->
+    map summ (concat bs1) = map summ (concat bs2) ->
+    let n1 := snd (link_consume summ (s1, init_round a1) bs1) in
+    let n2 := snd (link_consume summ (s2, init_round a2) bs2) in
+    s_n (a_store n1) = s_n (a_store n2)
+    /\ (forall j, (j < w)%nat -> bget (s_mean (a_store n1)) j == bget (s_mean (a_store n2)) j
+                                 /\ bget (s_m2 (a_store n1)) j == bget (s_m2 (a_store n2)) j)
+    /\ exists r1 r2 u1 u2,
+         snd (link_round summ s1 a1 bs1) = Some r1 /\ snd (link_round summ s2 a2 bs2) = Some r2
+         /\ last (a_funcs r1) None = Some u1 /\ last (a_funcs r2) None = Some u2
+         /\ length u1 = w /\ length u2 = w
+         /\ forall j, (j < w)%nat -> nth j u1 0 == nth j u2 0.
+Proof. exact link_round_ignores_threshold_and_batching. Qed.
+Print Assumptions C12_round_ignores_C01_threshold_and_batching.
+
+(** two finished C01 runs that consumed draws with the same summary rows in the same order (any
+    thresholds / objective forms, batch sizes, sample counts, prior states): same [n_sim], equal weights *)
+Theorem C12_C01_runs_same_draws_same_round :
+  forall (summ : draw -> list Q) prev1 prev2 c1 c2 s1 s2 a1 a2 w,
+    run_wf summ w c1 -> run_wf summ w c2 ->
+    run_on prev1 c1 = Some s1 -> run_on prev2 c2 = Some s2 ->
+    run_finished c1 (Reject.extract s1) -> run_finished c2 (Reject.extract s2) ->
+    map summ (concat (consumed_batches c1 (Reject.extract s1)))
+    = map summ (concat (consumed_batches c2 (Reject.extract s2))) ->
+    res_n_sim (Reject.extract s1) = res_n_sim (Reject.extract s2)
+    /\ exists r1 r2 u1 u2,
+         rejection_round a1 (round_of_run summ c1 (Reject.extract s1)) = Some r1
+         /\ rejection_round a2 (round_of_run summ c2 (Reject.extract s2)) = Some r2
+         /\ last (a_funcs r1) None = Some u1 /\ last (a_funcs r2) None = Some u2
+         /\ length u1 = w /\ length u2 = w
+         /\ forall j, (j < w)%nat -> nth j u1 0 == nth j u2 0.
+Proof. exact runs_same_draws_same_round. Qed.
+Print Assumptions C12_C01_runs_same_draws_same_round.
+
+(** summary rows determined by the row code: same codes, same data for the node *)
+Theorem C12_C01_rows_by_code :
+  forall (summ : draw -> list Q) (srow : N -> list Q) l1 l2,
+    (forall d, summ d = srow (d_code d)) -> map d_code l1 = map d_code l2 -> map summ l1 = map summ l2.
+Proof. exact summ_by_code. Qed.
+Print Assumptions C12_C01_rows_by_code.
+
+(** Consecutive runs on one Rejection instance feeding one node (threshold lists, SMC populations):
+    function [k+1] is weighted by 1/variance of ALL rows run [k] simulated and of those alone, while
+    every run returns the best accepted draws of its own consumed batches under its own discrepancies
+    and reports n_sim = the number of rows the node saw in that round. *)
+Theorem C12_C01_history_rounds_see_all_rows :
+  forall (summ : draw -> list Q) prev h ress a w,
+    Forall (run_wf summ w) h ->
+    history_results prev h = map Some ress ->
+    Forall2 run_finished h ress ->
+    let runs := combine h ress in
+    let rounds := map (fun cr => round_of_run summ (fst cr) (snd cr)) runs in
+    (exists a2 ws,
+        rejection_rounds a rounds = Some a2
+        /\ a_funcs a2 = a_funcs a ++ map Some ws
+        /\ (h <> [] -> a_store a2 = store0)
+        /\ Forall2 (fun w2 cr =>
+                      length w2 = w
+                      /\ forall j, (j < w)%nat ->
+                           nth j w2 0 == / colvar (map summ (concat (consumed_batches (fst cr) (snd cr)))) j)
+                   ws runs)
+    /\ Forall2 (fun c res =>
+                  returns_best (c_n c) (run_thr c) (concat (consumed_batches c res)) (res_rows res)
+                  /\ res_n_sim res = (res_n_batches res * c_b c)%nat
+                  /\ res_n_sim res = length (map summ (concat (consumed_batches c res))))
+               h ress.
+Proof. exact history_rounds_see_all_rows. Qed.
+Print Assumptions C12_C01_history_rounds_see_all_rows.
+
+(** six draws (codes 1..6, summary row [code; 0 or 2]) consumed as 3 batches of 2 under threshold 3
+    (n = 2) and as 2 batches of 3 without threshold (n = 1): the C01 halves differ (masks, returned
+    rows), n_sim is 6 in both, and the node ends in the same state with weights 1/variance of all six
+    rows (12/35, 1).  The second part is a finished [run_on] (n_sim = 6 given) satisfying the
+    hypotheses of [C12_round_sees_all_simulated_rows_of_C01_run]. *)
+Example C12_example_C01_link :
+  let summ := fun d : draw => [inject_Z (Z.of_N (d_code d)); inject_Z (2 * ((Z.of_N (d_code d) + 1) mod 2))] in
+  let dr := fun z k => {| d_disc := Fin z; d_code := k |} in
+  let bs1 := [[dr 5%Z 1%N; dr 1%Z 2%N]; [dr 7%Z 3%N; dr 9%Z 4%N]; [dr 2%Z 5%N; dr 8%Z 6%N]] in
+  let bs2 := [[dr 5%Z 1%N; dr 1%Z 2%N; dr 7%Z 3%N]; [dr 9%Z 4%N; dr 2%Z 5%N; dr 8%Z 6%N]] in
+  let r1 := link_round summ (rinit 2 2 (Some (Fin 3)) 3) astate0 bs1 in
+  let r2 := link_round summ (rinit 1 3 None 2) astate0 bs2 in
+  let c := {| c_n := 2; c_b := 2; c_form := ByNsim 6; c_table := bs1; c_rows := []; c_threshold := PInf;
+              c_n_sim := 0; c_n_batches := 0 |} in
+  (map sb_accept (sbatches_of summ (Some (Fin 3)) bs1) = [[false; true]; [false; false]; [true; false]]
+   /\ res_rows (Reject.extract (fst r1)) = [Some (dr 1%Z 2%N); Some (dr 2%Z 5%N)]
+   /\ res_rows (Reject.extract (fst r2)) = [Some (dr 1%Z 2%N)]
+   /\ res_n_sim (Reject.extract (fst r1)) = 6%nat /\ res_n_sim (Reject.extract (fst r2)) = 6%nat
+   /\ snd r1 = snd r2
+   /\ exists a2, snd r1 = Some a2 /\ a_funcs a2 = [None; Some [12 # 35; 1]])
+  /\ (run_wf summ 2 c
+      /\ exists s, run_on None c = Some s /\ run_finished c (Reject.extract s)
+                   /\ res_n_sim (Reject.extract s) = 6%nat
+                   /\ res_rows (Reject.extract s) = [Some (dr 1%Z 2%N); Some (dr 2%Z 5%N)]
+                   /\ exists a2, rejection_round astate0 (round_of_run summ c (Reject.extract s)) = Some a2
+                                 /\ a_funcs a2 = [None; Some [12 # 35; 1]]).
+Proof.
+  cbv zeta. split.
+  - repeat (split; [vm_compute; reflexivity|]). eexists. split; vm_compute; reflexivity.
+  - split.
+    + split; [vm_compute; auto|]. repeat constructor.
+    + eexists. split; [vm_compute; reflexivity|].
+      split; [vm_compute; auto|]. split; [vm_compute; reflexivity|]. split; [vm_compute; reflexivity|].
+      eexists. split; vm_compute; reflexivity.
+Qed.
